@@ -102,40 +102,40 @@ contract("monkeytype.cli:apply_stub_handler", props=["C15", "C13", "C10"], theor
          raises={"HandlerError": "L_stub is not None", "ImportError": "L_stub is not None", "OSError": "L_stub is not None"})
 
 # ---- C16 / C15: which imports count as "newly introduced by the stub" (the rest of the source's imports must stay where they are)
-_O_SYM = "exists_v(lambda n: has(g_symbols({g}), n) and lookup(g_symbols({g}), n) is it)"
-_O_MOD = "exists_v(lambda m: has(g_modules({g}), m) and it is mk_item(m, None, None))"
-_O_MAL = "exists_v(lambda m: has(g_module_aliases({g}), m) and it is mk_item(m, None, lookup(g_module_aliases({g}), m)))"
-_O_OBJ = "exists(range_(0, {n}), lambda j: exists_v(lambda o: has(lookup(g_objects({g}), nth(g_objects({g}), j)), o) and it is mk_item(nth(g_objects({g}), j), o, None)))"
-_O_ALI = ("exists(range_(0, {n}), lambda j: exists(lookup(g_aliases({g}), nth(g_aliases({g}), j)), lambda pr: it is mk_item(nth(g_aliases({g}), j), nth(pr, 0), nth(pr, 1))))")
-_BASE = "(%s or %s or %s)" % (_O_SYM, _O_MOD, _O_MAL)
-_G = "gatherer"
+# an import item the module makes in some import statement (at any depth): `import a.b [as c]` -> (a.b, None, c); `from m import o [as c]` -> (m, o, c); star imports name nothing
+_OF_IMPORT = "exists(cst_names({n}), lambda a: it is mk_item(alias_name(a), None, alias_asname(a)))"
+_OF_FROM = "exists(cst_names({n}), lambda a: it is mk_item(from_module({n}), alias_name(a), alias_asname(a)))"
+_OF_NODE = "((is_import_stmt({n}) and %s) or (not is_import_stmt({n}) and not is_star({n}) and from_module({n}) is not None and %s))" % (_OF_IMPORT, _OF_FROM)
+_IMPORTED = "exists(range_(0, {k}), lambda j: %s)" % _OF_NODE.replace("{n}", "nth(g_all({g}), j)")
 contract("monkeytype.cli:_all_import_items", props=["C16", "C15"], theories=["cst"],
          params={"gatherer": "Gatherer"}, result="Set[Item]",
-         ensures={
-             # every import the visited module makes, in whichever of the gatherer's views it is recorded, is in the result ...
-             "post:symbols": "forall_v(lambda n: implies(has(g_symbols(gatherer), n), has(result, lookup(g_symbols(gatherer), n))))",
-             "post:modules": "forall_v(lambda m: implies(has(g_modules(gatherer), m), has(result, mk_item(m, None, None))))",
-             "post:module-aliases": "forall_v(lambda m: implies(has(g_module_aliases(gatherer), m), has(result, mk_item(m, None, lookup(g_module_aliases(gatherer), m)))))",
-             "post:objects": "forall_v(lambda m: implies(has(g_objects(gatherer), m), forall_v(lambda o: implies(has(lookup(g_objects(gatherer), m), o), has(result, mk_item(m, o, None))))))",
-             "post:aliases": "forall_v(lambda m: implies(has(g_aliases(gatherer), m), forall(lookup(g_aliases(gatherer), m), lambda pr: has(result, mk_item(m, nth(pr, 0), nth(pr, 1))))))",
-             # ... and nothing else is
-             "post:only": "forall_v(lambda it: implies(has(result, it), %s or %s or %s))" % (_BASE.format(g=_G), _O_OBJ.format(g=_G, n="len(g_objects(gatherer))"), _O_ALI.format(g=_G, n="len(g_aliases(gatherer))")),
-         },
-         loops={0: {"iter": "gatherer.object_mapping.items()",
-                    "inv": {"members": "forall_v(lambda it: has(items, it) == (%s or %s))" % (_BASE.format(g=_G), _O_OBJ.format(g=_G, n="_i"))}},
-                1: {"iter": "gatherer.alias_mapping.items()",
-                    "inv": {"members": "forall_v(lambda it: has(items, it) == (%s or %s or %s))" % (_BASE.format(g=_G), _O_OBJ.format(g=_G, n="len(g_objects(gatherer))"), _O_ALI.format(g=_G, n="_i"))}},
+         # exactly the items of the module's import statements: every one of them, nothing else
+         ensures={"post:exact": "forall_v(lambda it: has(result, it) == %s)" % _IMPORTED.format(g="gatherer", k="len(g_all(gatherer))")},
+         loops={0: {"iter": "gatherer.all_imports",
+                    "inv": {"members": "forall_v(lambda it: has(items, it) == %s)" % _IMPORTED.format(g="gatherer", k="_i")}},
+                1: {"iter": "node.names",
+                    "inv": {"members": "forall_v(lambda it: has(items, it) == (has(pre_loop('items'), it) or exists(range_(0, _i), lambda q: it is mk_item(alias_name(nth(cst_names(node), q)), None, alias_asname(nth(cst_names(node), q))))))"}},
+                2: {"iter": "node.names",
+                    "inv": {"members": "forall_v(lambda it: has(items, it) == (has(pre_loop('items'), it) or exists(range_(0, _i), lambda q: it is mk_item(module, alias_name(nth(cst_names(node), q)), alias_asname(nth(cst_names(node), q))))))",
+                            "module": "module is from_module(node) and module is not None"}},
                 "tags": {"items": "Set[Item]"}})
 
 _GS, _GT = "gathered_from(stub_module)", "gathered_from(source_module)"
-_IN_SOURCE = "(%s or %s or %s)" % (_BASE.format(g=_GT), _O_OBJ.format(g=_GT, n="len(g_objects(%s))" % _GT), _O_ALI.format(g=_GT, n="len(g_aliases(%s))" % _GT))
+_IN_SOURCE = _IMPORTED.format(g=_GT, k="len(g_all(%s))" % _GT)
 contract("monkeytype.cli:get_newly_imported_items", props=["C16", "C15"], theories=["cst"],
          params={"stub_module": "CstModule", "source_module": "CstModule"}, result="Seq[Item]",
          ensures={
-             # every import the source already had stays where it was: nothing the source imports - in whichever of the gatherer's views - is handed to the mover
+             # every import the source already had stays where it was: no item of any import statement of the source, at any depth, is handed to the mover
              "post:source-imports-never-moved": "forall_v(lambda it: implies(%s, not has(result, it)))" % _IN_SOURCE,
              # only imports of the stub are moved ...
              "post:only-stub-imports": "forall_v(lambda it: implies(has(result, it), exists_v(lambda n: has(g_symbols(%s), n) and lookup(g_symbols(%s), n) is it)))" % (_GS, _GS),
              # ... and every import of the stub that the source does not make is
              "post:complete": "forall_v(lambda n: implies(has(g_symbols(%s), n), (lambda it: has(result, it) or %s)(lookup(g_symbols(%s), n))))" % (_GS, _IN_SOURCE, _GS),
          })
+
+contract("monkeytype.cli:list_modules_handler", props=["C09"], theories=TH, pure=False, effects="print",
+         params={"args": "Args", "stdout": "Stream", "stderr": "Stream"}, result="none",
+         # the command prints exactly the store's module listing, one module per line, on stdout; nothing else is printed
+         ensures={"post:listing": "len(effects()) == len(old(effects())) + 1 and is_print(last_effect(), stdout, '')"
+                                  " and print_text(last_effect()) == str_join('\\n', store_modules(config_store(args_config(args))))",
+                  "frame:prefix": "forall(range_(0, len(old(effects()))), lambda q: nth(effects(), q) is nth(old(effects()), q))"})
